@@ -42,12 +42,12 @@ class C03(Prop):
               'DK.C03.feasible_iff_spec_adevice', 'DK.C03.feasible_iff_spec_leaf', 'DK.C03.chargeAt_eq_socRec',
               'DK.C03.deviceCons_length', 'DK.C03.sdeviceCons_length', 'DK.C09.socDot_eq_chargeAt']
   rule = ('every atomic class x horizon n (1..8 quick, ..31 thorough) x cumulative-bound form (none, 2-tuple, one 4-tuple whole/sub-range, '
-          'several contiguous, several overlapping, nested; CDevice2 default) x storage (efficiency/sustainment =1 and <1, rate_clip off / '
-          'low / high / both, reserve 0 and >0) x ADevice user constraints (eq/ineq, with/without jac); probes: interior, box vertices, '
+          'several contiguous, several overlapping, nested; CDevice2 default) x storage (efficiency/sustainment =1 and <1, rate_clip absent / None / scalar k / '
+          '(k, None) / (None, k) / (k1, k2) with k1 != k2, reserve 0 and >0; 12 %: parameter changed through its setter after a first read of .constraints) x ADevice user constraints (eq/ineq, with/without jac); probes: interior, box vertices, '
           'exactly on a cumulative limit, 1/64 inside/outside it, outside the box, storage over/under-fill. non-trivial: >= 1 cumulative '
           'bound or storage, and the probes fall on both sides of >= 1 documented constraint')
-  sizes = {'quick': 1200, 'thorough': 10000}
-  assumptions = ['T2 compares, per exported constraint, (type, value at each probe flow), as a multiset (rows sorted by value rounded to 1e-6)',
+  sizes = {'quick': 1200, 'thorough': 8000}
+  assumptions = ['T2 compares, per exported constraint, (type, value at each probe flow), as a multiset: each model row is paired with the nearest unused implementation row (no rounding, no sort key)',
                  'oracle membership tolerance: member iff every slack >= -1e-9*scale; a disagreement counts only if the other side is beyond 1e-8*scale',
                  'oracle semantics are taken from the case description (bounds, cbounds, storage parameters, user constraints as data), '
                  'not from the live object, so a constructor that drops a setting is caught as well']
@@ -62,14 +62,16 @@ class C03(Prop):
       case = {'dev': d, 'probes': G.gen_probes(rng, d), '_shape': rng.choice(['flat', 'flat', 'row']), 'tag': tag,
               'oseed': rng.randrange(1 << 30)}
       out.append(case)
+    G.prefetch([{'op': 'cons.leaf', 'dev': c['dev'], 'probes': c['probes'], 'jac': False} for c in out])
     return out
 
   def ops(self, case):
     d = case['dev']
-    dev = build.build_block_device(d, 'dev')
+    dev = G.build_dev(d, 'dev')
     P = [shaped(case, x) for x in flows(case)]
-    ops = [Op({'op': 'cons.leaf', 'dev': d, 'probes': case['probes'], 'jac': False},
-              lambda: G.canon_rows(dev.constraints, P, False), 1e-9, 'constraint (type, value) rows')]
+    line = {'op': 'cons.leaf', 'dev': d, 'probes': case['probes'], 'jac': False}
+    mrows = G.model_rows(line)
+    ops = [Op(line, lambda: G.align_rows(mrows, G.impl_rows(dev.constraints, P, False)), 1e-9, 'constraint (type, value) rows')]
     if d['cls'] == 'SDevice':
       ops.append(Op({'op': 'cons.charge', 'dev': d, 'probes': case['probes']},
                     lambda: [dev.charge_at(x.reshape(-1)) for x in P], 1e-9, 'charge_at'))
@@ -80,12 +82,14 @@ class C03(Prop):
     np = G.np()
     d = case['dev']; n = d['n']; cls = d['cls']
     tag = case.get('tag', {})
-    for k in ('cform', 'rate_clip', 'lossy', 'leaky'):
+    for k in ('cform', 'rate_clip', 'lossy', 'leaky', 'reread'):
       if k in tag:
         self.hist[(k, str(tag[k]))] = self.hist.get((k, str(tag[k])), 0) + 1
-    dev = build.build_block_device(d, 'dev')
+    dev = G.build_dev(d, 'dev')
     fails = []
     key = lambda kind: {'cls': cls, 'kind': kind}
+    rr = d.get('_py', {}).get('reread')
+    ctx = (' [device built with %s=%s, .constraints read once, then %s set to %s through its setter]' % (rr[0], rr[1], rr[0], d['prm'][rr[0]])) if rr else ''
     # reported attributes against the description
     want_cb = [(C.pf(c[0]), C.pf(c[1]), int(c[2]), int(c[3])) for c in (d.get('cbs') or [])]
     got_cb = [tuple(float(v) if i < 2 else int(v) for i, v in enumerate(c)) for c in (dev.cbounds or [])]
@@ -131,12 +135,12 @@ class C03(Prop):
       if we[1] >= -ACCEPT*scale and ws[1] < -FIRM*scale:
         fails.append({'key': key('accepts-infeasible'),
                       'detail': '%s n=%d: flow %s satisfies the exported bounds+constraints (worst slack %.3g at %s) but violates the documented '
-                                'constraint %s by %.6g' % (cls, n, x, we[1], we[0], ws[0], -ws[1])})
+                                'constraint %s by %.6g' % (cls, n, x, we[1], we[0], ws[0], -ws[1]) + ctx})
         break
       if ws[1] >= -ACCEPT*scale and we[1] < -FIRM*scale:
         fails.append({'key': key('rejects-feasible'),
                       'detail': '%s n=%d: flow %s satisfies every documented constraint (worst slack %.3g at %s) but the exported %s is violated by %.6g'
-                                % (cls, n, x, ws[1], ws[0], we[0], -we[1])})
+                                % (cls, n, x, ws[1], ws[0], we[0], -we[1]) + ctx})
         break
       if cls == 'SDevice':
         rep = np.asarray(dev.charge_at(xa), dtype=float).reshape(-1)
